@@ -532,7 +532,7 @@ class Session:
         with pert.make(seed, perturb) as P:
             try:
                 res = self.uberjob.run(
-                    self.plan, output=self.out_spec(out_ids), registry=self.registry, max_workers=W, scheduler=sched,
+                    self.plan, output=self.out_spec(out_ids), registry=kw.pop("registry", self.registry), max_workers=W, scheduler=sched,
                     fresh_time=fresh, progress=kw.pop("progress", None), dry_run=dry_run, **kw
                 )
             except BaseException as e:
